@@ -23,6 +23,9 @@ EXPLANATION = (
 EXPLANATION += (
     " " + 'R6: permute_blocks permutes threads / haplotypes in place only from snapshots whose copy depth (deepcopy, or nested element copies) reaches the written subscript level, and integrate_sub_results writes res.haplotypes[j][i] back to haplotypes[thread_set[j]][snps[i]] for every pair unconditionally.'
 )
+EXPLANATION += (
+    " " + "R7: the parameter object of the recursive sub-instances is a copy of the caller's in which only the reviewed attributes (ignore_phasings, threads, ploidy) are replaced."
+)
 NOT_DECIDED = "That threading / reordering permutations preserve allele multisets (perms are runtime values) and that cut positions are monotone."
 ASSUMPTIONS = ["compute_cut_positions returns ascending cut indices starting with 0 (asserted in the code, value-level)"]
 
@@ -481,6 +484,43 @@ def r6(ctx):
     ctx.ob(isr.qual, "sub-result-written-back-for-every-haplotype-and-position", ok, isr.loc(st.stmt), "haplotypes[hap][pos] = res.haplotypes[j][i] for every (snp, thread) pair of the sub-instance, unconditionally" if ok else ("the write-back is conditional (%s): where it is skipped the collapsed-region allele stays, and the column no longer carries the genotype's alleles" % tests if tests else "the write-back does not copy res.haplotypes[j][i] to haplotypes[thread_set[j]][snps[i]] for all pairs"))
 
 
+# what a recursive sub-instance may get differently from its parent run (attribute of the copied parameter object -> why)
+SUB_PARAM_OVERRIDES = {
+    "ignore_phasings": "a sub-instance is phased from its reads alone",
+    "threads": "sub-instances run inside a worker",
+    "ploidy": "the sub-instance covers only the haplotypes threaded through the collapsed cluster",
+}
+
+
+def r7(ctx):
+    """Sub-instances that resolve collapsed clusters are solved under the same genotype discipline as the run: the parameter
+    object handed to the recursive solve_polyphase_instance is a copy of the caller's in which only the reviewed attributes
+    are replaced.  Setting e.g. distrust_genotypes there lets a sub-solution leave its sub-genotypes, and the columns written
+    back by integrate_sub_results no longer carry the input's allele counts."""
+    fi = ctx.func("whatshap.polyphase.algorithm.phase_single_block")
+    rec = [c for c in ctx.prog.calls_in(fi.node) if u(c.func) == "solve_polyphase_instance"]
+    ctx.require(len(rec) >= 1, "recursive solve_polyphase_instance call not found in phase_single_block")
+    n = 0
+    for c in rec:
+        b = util.bound_args(c, ctx.func("whatshap.polyphase.algorithm.solve_polyphase_instance").node, skip_self=False)
+        parg = b.get("param") if b else None
+        if not isinstance(parg, ast.Name):
+            ctx.ob(fi.qual, "sub-instance-parameters", None, fi.loc(c), "cannot read which parameter object the sub-instance gets")
+            continue
+        d = util.single_def(fi.node, parg.id)
+        is_copy = isinstance(d, ast.Call) and u(d.func) in ("copy", "copy.copy", "deepcopy", "copy.deepcopy", "dataclasses.replace", "replace") and d.args and u(d.args[0]) == util.params_of(fi.node)[4 if len(util.params_of(fi.node)) > 4 else -1]
+        if isinstance(d, ast.Call) and u(d.func) in ("dataclasses.replace", "replace"):
+            over = {k.arg for k in d.keywords if k.arg}
+        else:
+            over = set()
+        over |= {s_.target.attr for s_ in util.store_sites(fi.node) if s_.kind == "attr" and isinstance(s_.target.value, ast.Name) and s_.target.value.id == parg.id}
+        extra = sorted(over - set(SUB_PARAM_OVERRIDES))
+        n += 1
+        okc = isinstance(d, ast.Call) and u(d.func) in ("copy", "copy.copy", "deepcopy", "copy.deepcopy", "dataclasses.replace", "replace") and d.args and isinstance(d.args[0], ast.Name) and d.args[0].id in util.params_of(fi.node)
+        ok = (None if not okc else not extra)
+        ctx.ob(fi.qual, "sub-instance-parameters", ok, fi.loc(c), "the sub-instance runs with a copy of the caller's parameters in which only %s are replaced" % ", ".join(sorted(over)) if ok else ("the sub-instance's parameters replace %s: the sub-solution is no longer held to the run's genotype / cut discipline (reviewed overrides: %s)" % (", ".join(extra), ", ".join(sorted(SUB_PARAM_OVERRIDES))) if okc else "cannot read how `%s` derives from the caller's parameters" % parg.id))
+
+
 RULES = [
     ("C15.R1", "only heterozygous, present genotypes reach the solver", r1),
     ("C15.R2", "genotype enforcement is reached; genotypes are the input's allele counts", r2),
@@ -488,7 +528,8 @@ RULES = [
     ("C15.R4", "VCF pass-through: shared writer rules (C04.R1-R3, R5)", r4),
     ("C15.R5", "block results aggregated in block order for any thread count", r5),
     ("C15.R6", "reordering permutes from a storage-disjoint snapshot; sub-results written back completely", r6),
+    ("C15.R7", "sub-instances run with the caller's parameters except for the reviewed overrides", r7),
 ]
 # instance floors: about 60% of the instances confirmed by hand on the reference tree -- a rule that suddenly matches far fewer
 # sites fails the run (exit 2); a clean-up that merges two sites into one does not
-FLOORS = {"C15.R1": 3, "C15.R2": 5, "C15.R3": 3, "C15.R4": 22, "C15.R5": 3, "C15.R6": 1}
+FLOORS = {"C15.R1": 3, "C15.R2": 5, "C15.R3": 3, "C15.R4": 22, "C15.R5": 3, "C15.R6": 1, "C15.R7": 1}
